@@ -27,6 +27,10 @@ pub struct Case {
     /// value grows (15/16, 255/256, 4095/4096) and to the last block
     #[serde(default)]
     pub high_blocks: bool,
+    /// downloads: after block 0 the client lowers its block size by this many
+    /// exponent steps (as far as possible)
+    #[serde(default)]
+    pub reduce: u8,
 }
 
 impl Case {
@@ -100,6 +104,7 @@ fn run_download(c: &Case, acc: &mut Acc) -> Result<bool, Fail> {
     let mut client_now = c.client_szx;
     let mut blocks = 0usize;
     let mut near = false;
+    let mut last_szx: Option<u8> = None;
     loop {
         mid += 1;
         let req = c.request(mid, None, req_b2.clone(), vec![]);
@@ -207,9 +212,76 @@ fn run_download(c: &Case, acc: &mut Acc) -> Result<bool, Fail> {
             break;
         }
         ensure!(blocks <= c.body_len / 16 + 3, "c10-no-progress", "download does not finish ({ctx})");
-        // the client continues with the size the server used (never raising it)
-        client_now = Some(b.szx);
-        req_b2 = Some(block_bytes((received / b.size()) as u32, false, b.szx));
+        // the client continues with the size the server used (never raising
+        // it), or lowers it once after the first block
+        let ns = if blocks == 1 && c.reduce > 0 && b.szx > 0 {
+            acc.class("download:client-lowers-size-mid-transfer");
+            b.szx.saturating_sub(c.reduce)
+        } else {
+            b.szx
+        };
+        client_now = Some(ns);
+        last_szx = Some(ns);
+        req_b2 = Some(block_bytes((received / (16usize << ns)) as u32, false, ns));
+    }
+    if let (true, Some(s)) = (blocks >= 2, last_szx) {
+        // a client that comes back for a block after the transfer is over (its
+        // cache entry is gone): whatever the handler fragments then is bound by
+        // the size asked for in that request
+        for (n, szx) in [(1u32, s), (3, s.saturating_sub(2)), (0, s.saturating_sub(1))] {
+            mid = mid.wrapping_add(1);
+            let req = c.request(mid, None, Some(block_bytes(n, false, szx)), vec![]);
+            let out = exchange(&mut handler, &req.msg().encode().unwrap(), 1, &mut |_r| Some(reply.clone()));
+            let ctx = format!(
+                "late request for block {n} with size exponent {szx} after a finished download, budget {}, response overhead {resp_overhead}, first request {:?}, body {}",
+                c.budget, c.client_szx, c.body_len
+            );
+            if let Some(msg) = out.panicked() {
+                fail!("c10-panic", "handler panicked ({ctx}): {msg}");
+            }
+            if let (Some(r), Some(bytes)) = (&out.response, &out.response_bytes) {
+                ensure!(
+                    bytes.len() <= c.budget,
+                    "c10-response-exceeds-budget",
+                    "a response of {} encoded bytes exceeds the budget ({ctx})",
+                    bytes.len()
+                );
+                if let Some(bb) = find_opt(r, OPT_BLOCK2).and_then(|x| parse_block(x)) {
+                    check_block_size("Block2", &bb, Some(szx), &ctx)?;
+                    acc.class("download:late-request-fragmented");
+                }
+            }
+            // run the restarted transfer to its end so that the next probe
+            // starts without a cache entry again
+            let mut guard = 0;
+            let mut cur = out.response.clone();
+            let mut next = n;
+            while let Some(bb) = cur.as_ref().and_then(|r| find_opt(r, OPT_BLOCK2)).and_then(|x| parse_block(x)) {
+                if !bb.more || guard > c.body_len / 16 + 3 {
+                    break;
+                }
+                guard += 1;
+                next = if bb.num >= next { bb.num + 1 } else { next + 1 };
+                mid = mid.wrapping_add(1);
+                let req = c.request(mid, None, Some(block_bytes(next, false, bb.szx)), vec![]);
+                let o = exchange(&mut handler, &req.msg().encode().unwrap(), 1, &mut |_r| Some(reply.clone()));
+                if let Some(msg) = o.panicked() {
+                    fail!("c10-panic", "handler panicked ({ctx}, continuing at block {next}): {msg}");
+                }
+                if let (Some(r), Some(bytes)) = (&o.response, &o.response_bytes) {
+                    ensure!(
+                        bytes.len() <= c.budget,
+                        "c10-response-exceeds-budget",
+                        "a response of {} encoded bytes exceeds the budget ({ctx}, continuing at block {next})",
+                        bytes.len()
+                    );
+                    if let Some(b3) = find_opt(r, OPT_BLOCK2).and_then(|x| parse_block(x)) {
+                        check_block_size("Block2", &b3, Some(bb.szx), &ctx)?;
+                    }
+                }
+                cur = o.response.clone();
+            }
+        }
     }
     if blocks >= 2 {
         acc.class("download:fragmented");
@@ -403,6 +475,7 @@ fn case() -> BoxedStrategy<Case> {
                 body_len: body_len.min(6000),
                 reply_len,
                 high_blocks: false,
+                reduce: if r & 0x4000 != 0 { 1 + (r >> 12 & 3) as u8 } else { 0 },
             };
             let lo = c.min_budget();
             let hi = 1280usize;
@@ -451,6 +524,7 @@ pub fn run(ctx: &Ctx, rep: &mut Report) {
                 body_len: 2500,
                 reply_len: 3,
                 high_blocks: false,
+                reduce: 0,
             };
             let overhead = if upload { base.request_overhead() } else { base.reply().overhead(4) };
             let lo = base.min_budget();
@@ -505,6 +579,7 @@ pub fn run(ctx: &Ctx, rep: &mut Report) {
                         body_len: 600,
                         reply_len: 0,
                         high_blocks: false,
+                reduce: 0,
                     };
                     let overhead = if upload { base.request_overhead() } else { base.reply().overhead(token_len as usize) };
                     let lo = base.min_budget();
@@ -548,6 +623,7 @@ pub fn run(ctx: &Ctx, rep: &mut Report) {
                 body_len: 0,
                 reply_len: 0,
                 high_blocks: true,
+                reduce: 0,
             };
             let overhead = base.reply().overhead(token_len as usize);
             let lo = base.min_budget();
@@ -560,6 +636,14 @@ pub fn run(ctx: &Ctx, rep: &mut Report) {
                         long.push(base.clone());
                     }
                 }
+            }
+            // a client asking for less than the budget allows
+            for (szx, budget) in [(0u8, 300usize), (0, 1280), (1, 200), (2, 1280)] {
+                let mut c = base.clone();
+                c.client_szx = Some(szx);
+                c.budget = budget.max(lo);
+                c.body_len = (4100usize << (szx + 4)) + 3;
+                long.push(c);
             }
         }
     }
